@@ -1,6 +1,7 @@
 mod common;
 mod fixture;
 mod sched;
+mod c01;
 mod c06;
 mod c12;
 mod c13;
@@ -47,6 +48,7 @@ fn main() {
             println!("100 runs: {:?}", t.elapsed());
             0
         }
+        "c01" => c01::run(opts),
         "c06" => c06::run(opts),
         "c12" => c12::run(opts),
         "c13" => c13::run(opts),
